@@ -126,6 +126,8 @@ class _VGLevyMeasure(LevyMeasure):
             self.parameters._lambda_m,
             self.parameters._lambda_p,
         )
+        if a == b:
+            return 0.0
         if a < b and a <= 0 <= b:
             return np.inf  # infinite activity: the mass of any neighbourhood of zero is infinite
 
